@@ -84,7 +84,7 @@ def rprice(rng):
     return rng.choice([1, 2, 3, 5, 7]) * 100 * U if rng.random() < 0.5 else rng.randint(1, 10**rng.randint(4, 18))
 
 
-MIXED = {"C06": 0.15, "C07": 0.15, "C09": 0.15, "C10": 0.15, "C08": 0.15, "C17": 0.6}
+MIXED = {"C06": 0.3, "C07": 0.15, "C09": 0.15, "C10": 0.15, "C08": 0.15, "C17": 0.6}
 
 
 def boundary_dates(rows):
@@ -525,9 +525,26 @@ def oracle_c05(case, res, guard=True):
 
 
 def oracle_c06(case, res, guard=True):
-    if res["status"] != "ok" or (guard and not ldm_ok(case)):
+    if res["status"] != "ok":
         return None
     rows = {r[1]: r for r in case["rows"]}
+    if case["from"] is None:
+        # summary vs the detail table of the same run (needs no hypothesis: both are cut at the to-date in the same way): every line is the
+        # sum of the shown fractions with its key, every shown fraction is in a line
+        shown = defaultdict(lambda: [F(0)] * 4)
+        for f in res["fractions"]:
+            k = (ldate(rows[f["ev"]][2], rows[f["ev"]][3]).year, f["typ"], f["long"])
+            a = shown[k]
+            shown[k] = [a[0] + F(f["amt"], U), a[1] + F(f["proceeds"]), a[2] + F(f["cost"]), a[3] + F(f["gain"])]
+        got = {(y[0], y[1], y[2]): [F(x) for x in y[3:]] for y in res["yearly"]}
+        if set(got) != set(shown):
+            return f"yearly keys {sorted(got)} vs keys of the detail fractions of the same run {sorted(shown)}"
+        for k in shown:
+            for a, b in zip(got[k], shown[k]):
+                if abs(a - b) > 100 * EPS * max(abs(a), abs(b), 1):
+                    return f"yearly line {k}: {float(a)!r} vs sum of the detail fractions of the same run {float(b)!r}"
+    if guard and not ldm_ok(case):
+        return None
     agg = defaultdict(lambda: [F(0)] * 4)
     fdy = date.fromisoformat(case["from"]).year if case["from"] else 0
     td = date.fromisoformat(case["to"]) if case["to"] else None
